@@ -678,6 +678,76 @@ fn directed(seed: u64) -> Vec<Scenario> {
     v
 }
 
+/// a machine that answers the j-th event delivered to it with acts[j] (behaviours generated by TLC
+/// from Simulator.tla: the oracle's answers become machines): a chain of states, every event
+/// leads on to the next state, whose action is the scripted answer; no limits, no budgets
+fn chain_machine(acts: &[Value]) -> MMachine {
+    let act_of = |a: &Value| -> MAction {
+        let mut m = MAction::none();
+        let kind = a["kind"].as_str().unwrap_or("None");
+        if kind == "None" {
+            return m;
+        }
+        m.kind = kind.to_string();
+        m.bypass = a["bypass"].as_bool().unwrap_or(false);
+        m.replace = a["replace"].as_bool().unwrap_or(false);
+        m.timer = a["timer"].as_str().unwrap_or("-").to_string();
+        if kind == "SendPadding" || kind == "BlockOutgoing" {
+            m.timeout = MDist::constant(a["timeout"].as_i64().unwrap_or(0));
+        }
+        if kind == "BlockOutgoing" || kind == "UpdateTimer" {
+            m.duration = MDist::constant(a["duration"].as_i64().unwrap_or(0));
+        }
+        m
+    };
+    let n = acts.len();
+    let mut states = Vec::new();
+    for j in 0..=n {
+        let mut trans = std::collections::BTreeMap::new();
+        if j < n {
+            for e in EXT.iter() {
+                trans.insert(e.to_string(), vec![((j + 1) as i64, 16u32)]);
+            }
+        }
+        states.push(MState {
+            action: if j == 0 { MAction::none() } else { act_of(&acts[j - 1]) },
+            ca: MCtr::none(),
+            cb: MCtr::none(),
+            trans,
+        });
+    }
+    MMachine { allowedPad: -1, padFrac: (0, 1), allowedBlock: -1, blockFrac: (0, 1), states }
+}
+
+fn scripted(path: &str, seed: u64) -> Vec<Scenario> {
+    use std::io::BufRead;
+    let mut v = Vec::new();
+    for (i, line) in std::io::BufReader::new(std::fs::File::open(path).expect("scripts")).lines().enumerate() {
+        let line = line.unwrap();
+        if line.trim().is_empty() {
+            continue;
+        }
+        let sc: Value = serde_json::from_str(&line).expect("script");
+        let side = |k: &str| -> Vec<MMachine> {
+            sc[k].as_array().map(|ms| ms.iter().map(|a| chain_machine(a.as_array().unwrap())).collect()).unwrap_or_default()
+        };
+        v.push(Scenario {
+            unit: 1,
+            trace: sc["trace"].as_array().unwrap().iter().map(|x| (x["t"].as_i64().unwrap(), x["s"].as_bool().unwrap())).collect(),
+            delay_us: sc["delay"].as_u64().unwrap(),
+            pps: None,
+            mc: side("mc"),
+            ms: side("ms"),
+            fracs: [(0, 1); 4],
+            seed: seed.wrapping_add(i as u64),
+            cont: sc["cont"].as_bool().unwrap_or(true),
+            max_it: 400,
+            mtl: 7,
+        });
+    }
+    v
+}
+
 /// bursts far beyond any small fixed-size count (2^15, 2^16): n packets at one instant, no
 /// machines; the returned traces are recorded run-length encoded (`outrle` lines)
 fn burst_lines(id: u64, n: usize, delay_us: u64, tail: bool) -> Vec<Value> {
@@ -762,6 +832,14 @@ fn main() {
     let mut list: Vec<(Scenario, bool)> = Vec::new();
     for id in 0..scenarios {
         list.push((random_scenario(&mut g, id, seed, max_packets, no_machines), false));
+    }
+    // --scripts FILE: scenarios generated by TLC from Simulator.tla (light runs)
+    let mut n_scripted = 0u64;
+    if let Some(path) = arg(&args, "--scripts") {
+        for sc in scripted(&path, seed) {
+            list.push((sc, true));
+            n_scripted += 1;
+        }
     }
     let mut n_directed = 0u64;
     if stride > 0 {
@@ -978,7 +1056,7 @@ fn main() {
     println!(
         "{}",
         json!({"scenarios": scenarios, "written": n_written, "events": n_ev, "actions": n_act,
-               "panics": n_panic, "sub_microsecond_skipped": n_subus, "directed": n_directed, "hangs": n_hang, "framework_traces": n_fw, "mechanism_traces": n_mech, "bursts": n_burst, "large_time_copies": n_scaled})
+               "panics": n_panic, "sub_microsecond_skipped": n_subus, "directed": n_directed, "hangs": n_hang, "framework_traces": n_fw, "mechanism_traces": n_mech, "bursts": n_burst, "large_time_copies": n_scaled, "scripted": n_scripted})
     );
     // threads stuck in a simulation are abandoned
     std::process::exit(0);
